@@ -32,7 +32,7 @@ ASSUMPTIONS = ['the order of the ids inside a joined (aggregated) id is not judg
                'same rounding to two decimals']
 REQUIRED_COUNTERS = {'responses_checked': 150, 'served': 50, 'blocked': 30, 'bidirectional': 15, 'aggregated': 5,
                      'csv_rows_checked': 150, 'blocking_reasons_seen': 4,
-                     'csv_pass_threshold_checks': 5, 'reported_vs_event_checks': 100}
+                     'csv_pass_threshold_checks': 5, 'csv_pass_boundary_checks': 10, 'reported_vs_event_checks': 100}
 CASE_TIMEOUT = {'quick': 300, 'thorough': 600}
 NOPATH = ('NO_PATH', 'NO_PATH_WITH_CONSTRAINT', 'NO_FEASIBLE_BAUDRATE_WITH_SPACING', 'NO_COMPUTED_SNR')
 
@@ -438,6 +438,47 @@ def check_csv_pass_threshold(ctx, doc, ej, rqs, paths, margin):
         return
 
 
+def check_csv_pass_boundary(ctx, doc, ej, rqs, paths, margin):
+    """Same response, library whose margin-inclusive threshold equals the reported worst SNR exactly (in floats, as
+    `jsontocsv` adds them) and lies 0.01 dB above it: 'at least the threshold' passes, anything below does not."""
+    for k, (rq, path) in enumerate(zip(rqs, paths)):
+        if getattr(rq, 'blocking_reason', None) is not None or not path:
+            continue
+        buf = io.StringIO()
+        jsontocsv({'response': [doc['response'][k]]}, G.make_equipment(deepcopy(ej)), buf)
+        stated = list(csv.DictReader(io.StringIO(buf.getvalue())))[0]['SNR-0.1nm (min)']
+        if stated == '' or r2(np.min(path[-1].snr_01nm)) != float(stated):
+            continue                            # (judged by check_csv)
+        lo = float(stated)
+        osnr = lo - margin
+        for _ in range(8):                     # OSNR + margin must reproduce lo bit for bit
+            if osnr + margin == lo:
+                break
+            osnr = float(np.nextafter(osnr, osnr + (lo - (osnr + margin))))
+        if osnr + margin != lo:
+            continue
+        for shift, expected in ((0.0, 'True'), (0.01, 'False')):
+            ej2 = deepcopy(ej)
+            for t in ej2['Transceiver']:
+                if t['type_variety'] == rq.tsp:
+                    for m in t['mode']:
+                        if m['format'] == rq.tsp_mode:
+                            m['OSNR'] = osnr + shift
+            if shift and not (osnr + shift) + margin > lo:
+                continue
+            buf = io.StringIO()
+            jsontocsv({'response': [doc['response'][k]]}, G.make_equipment(ej2), buf)
+            row = list(csv.DictReader(io.StringIO(buf.getvalue())))[0]
+            if float(row['SNR-0.1nm (min)']) != lo:
+                continue
+            ctx.count('csv_pass_boundary_checks')
+            if row['Pass?'] != expected:
+                ctx.violation('csv-pass-flag', f'CSV row {row["response-id"]}: worst channel {lo} dB against the threshold '
+                              f'{row["min required OSNR (inc. margin)"]} dB (margin included): Pass? = {row["Pass?"]}, '
+                              f'expected {expected}')
+        return
+
+
 def run_case(case, ctx):
     rng = ctx.rng
     ej, tj, equipment, network = build(rng)
@@ -496,6 +537,7 @@ def run_case(case, ctx):
         reasons.add(getattr(rq, 'blocking_reason', None))
     check_csv(ctx, doc, equipment, rqs, prop, rprop, margin)
     check_csv_pass_threshold(ctx, doc, ej, rqs, prop, margin)
+    check_csv_pass_boundary(ctx, doc, ej, rqs, prop, margin)
     for r in reasons:
         if r:
             ctx.cls(f'reason:{r}')
